@@ -35,6 +35,8 @@ def run(ctx, obs):
     _ord.report(ctx, obs, ['inference.crossvalsets.sets_leave_one_out_rdm', 'inference.noise_ceiling.', 'util.pooling.'])
     boot(ctx, obs)
     cv(ctx, obs)
+    for _q in (NC + 'boot_noise_ceiling', NC + 'cv_noise_ceiling'):
+        fold_means(ctx, obs, _q)
     for q in POOLS:
         nant.check_function(ctx, obs, q, taint_sources=('get_vectors',))
         mod = q.rsplit('.', 1)[0]
@@ -65,6 +67,52 @@ def _pool_and_compare(ctx, q):
     if not pools or not cmps:
         return r, None, None
     return r, pools, cmps
+
+
+def fold_means(ctx, obs, q, rule='FOLD-MEAN'):
+    """both bounds are averages over the left-out GROUPS: the similarities of the RDMs of one group are reduced to that group's mean
+    before they are accumulated, and the means are averaged.  Collecting the single similarities of all groups and averaging once
+    weights every group by its size - a different number as soon as the groups are not equally large."""
+    prog = ctx.prog
+    f = prog.func(q)
+    r, pools, cmps = _pool_and_compare(ctx, q)
+    if cmps is None:
+        return
+    parents = {}
+    for p in ast.walk(f.node):
+        for ch in ast.iter_child_nodes(p):
+            parents[id(ch)] = p
+    reducers = ('mean', 'nanmean', 'average', 'median', 'nanmedian')
+    for c in cmps:
+        if not c.in_loops:
+            continue
+        con = f'the similarities of a left-out group (`{norm(c.node)[:50]}`) are averaged within the group before they are accumulated'
+        # climb from the compare call to its statement; note reductions and accumulating calls on the way
+        n, reduced, acc = c.node, False, None
+        while id(n) in parents and not isinstance(n, ast.stmt):
+            p = parents[id(n)]
+            if isinstance(p, ast.Call):
+                leaf = p.func.attr if isinstance(p.func, ast.Attribute) else (p.func.id if isinstance(p.func, ast.Name) else '')
+                if leaf in reducers and (n in p.args[:1] or (isinstance(p.func, ast.Attribute) and n is p.func.value)
+                                         or (isinstance(p.func, ast.Attribute) and any(n is x for x in ast.walk(p.func.value)))):
+                    reduced = True
+                elif leaf in ('append', 'extend', 'insert') and not reduced:
+                    acc = leaf
+                elif leaf in ('append', 'extend', 'insert'):
+                    acc = acc or ('reduced-' + leaf)
+            n = p
+        st = n
+        if reduced and acc in (None, 'reduced-append') or (reduced and acc is None):
+            obs.ok(rule, q, con, f'`{norm(st)[:80]}`', where(prog, f, st))
+        elif acc in ('append', 'extend', 'insert'):
+            obs.bad(rule, q, con, f'`{norm(st)[:90]}` accumulates the single similarities of the group: the final mean weights each group by its '
+                    f'number of RDMs instead of averaging the group means', where(prog, f, st))
+        elif isinstance(st, ast.AugAssign) and not reduced:
+            obs.bad(rule, q, con, f'`{norm(st)[:90]}` accumulates the unreduced similarities of the group', where(prog, f, st))
+        elif reduced:
+            obs.ok(rule, q, con, f'`{norm(st)[:80]}`', where(prog, f, st))
+        else:
+            obs.unk(rule, q, con, f'`{norm(st)[:80]}`: the per-group reduction was not recognised in this statement', where(prog, f, st))
 
 
 def _moved_out(ctx, obs, q):
